@@ -4597,6 +4597,19 @@ gboolean conn_check_handle_inbound_stun (NiceAgent *agent, NiceStream *stream,
   valid = stun_agent_validate (&component->stun_agent, &req,
       (uint8_t *) buf, len, conncheck_stun_validater, &validater_data);
 
+  /* Only answers can belong to one of our discovery or refresh transactions.
+   * A request or indication rejected by the component's agent must not be
+   * validated again by those agents, which do not use the stream's
+   * credentials: a cookie-less Binding request would pass as authenticated. */
+  if (valid == STUN_VALIDATION_BAD_REQUEST &&
+      stun_message_get_class (&req) != STUN_RESPONSE &&
+      stun_message_get_class (&req) != STUN_ERROR) {
+    g_free (validater_data.password);
+    nice_debug ("Agent %p : Incorrectly multiplexed STUN message ignored.",
+        agent);
+    return FALSE;
+  }
+
   /* Check for discovery candidates stun agents */
   if (valid == STUN_VALIDATION_BAD_REQUEST ||
       valid == STUN_VALIDATION_UNMATCHED_RESPONSE) {
